@@ -70,6 +70,18 @@ CHECKS = {
             'rooms, sessions) equal the prediction from their own traffic, '
             'surely-undecodable frames invoke no handler, liveness round '
             'trip afterwards, tracemalloc growth bounded by bytes received.'),
+    'C13': ('DESIGN 4/C13',
+            'The finite grid of 768 registry configurations (2**6 presence '
+            'combinations x other-handlers x Server/AsyncServer/Client/'
+            'AsyncClient x sync/coroutine) is enumerated completely in every '
+            'tier; each cell is run end to end through the simulator with '
+            'seeded names and arguments: one ordinary event, an unregistered '
+            'event, and the reserved events as raised by the real lifecycle '
+            '(accepted connect, refusal -> connect_error, disconnect by '
+            'client / server / transport loss). Oracle = the documented '
+            'precedence table: exactly the expected target ran, once, with '
+            'the documented argument prefix; reserved events never reach a '
+            'catch-all event handler.'),
     'C16': ('DESIGN 4/C16',
             'Seeded search over histories of save_session / get_session / '
             'session() blocks (directly and through class-based namespace '
